@@ -10,6 +10,7 @@ use crate::ptworld::{cpath, set_xattr, snap, snap_diff, NodeSnap, CAPABLE_ALL};
 use crate::report::Report;
 use serde_json::{json, Value};
 use std::collections::{BTreeMap, BTreeSet};
+use std::os::unix::ffi::OsStrExt;
 use std::os::unix::fs::PermissionsExt;
 use std::path::{Path, PathBuf};
 use std::sync::Arc;
@@ -29,7 +30,7 @@ type BoxedLayer = Box<dyn Layer<Inode = u64, Handle = u64> + Send + Sync>;
 pub enum LNode {
     File { content: Vec<u8>, mode: u32 },
     Dir { mode: u32, opaque: Option<&'static str>, children: BTreeMap<String, LNode> },
-    Symlink(String),
+    Symlink(Vec<u8>),
     Whiteout,
 }
 
@@ -48,7 +49,7 @@ impl LNode {
             LNode::Dir { mode, opaque, children } => {
                 format!("dir({:o}{}){{{}}}", mode, if opaque.is_some() { ",opaque" } else { "" }, children.iter().map(|(k, v)| format!("{}:{}", k, v.short())).collect::<Vec<_>>().join(","))
             }
-            LNode::Symlink(t) => format!("symlink({})", t),
+            LNode::Symlink(t) => format!("symlink({})", String::from_utf8_lossy(t).replace('\u{fffd}', "\\x??")),
             LNode::Whiteout => "whiteout".into(),
         }
     }
@@ -66,7 +67,7 @@ fn materialize(dir: &Path, node: &LNode) {
                         std::fs::write(&p, content).unwrap();
                         std::fs::set_permissions(&p, std::fs::Permissions::from_mode(*mode)).unwrap();
                     }
-                    LNode::Symlink(t) => std::os::unix::fs::symlink(t, &p).unwrap(),
+                    LNode::Symlink(t) => std::os::unix::fs::symlink(std::ffi::OsStr::from_bytes(t), &p).unwrap(),
                     LNode::Whiteout => {
                         let c = cpath(&p);
                         let r = unsafe { libc::mknod(c.as_ptr(), libc::S_IFCHR | 0o666, libc::makedev(0, 0)) };
@@ -90,7 +91,7 @@ fn materialize(dir: &Path, node: &LNode) {
 pub enum VNode {
     File { content: Vec<u8>, mode: u32, xattrs: BTreeMap<String, Vec<u8>> },
     Dir { mode: u32, children: BTreeMap<String, VNode>, xattrs: BTreeMap<String, Vec<u8>> },
-    Symlink { target: String },
+    Symlink { target: Vec<u8> },
 }
 
 impl VNode {
@@ -178,7 +179,7 @@ pub fn tree_diff(path: &str, a: Option<&VNode>, b: Option<&VNode>, la: &str, lb:
                 }
                 (VNode::Symlink { target: t1 }, VNode::Symlink { target: t2 }) => {
                     if t1 != t2 {
-                        return Some(("target".into(), format!("{:?}: link target {}: {:?}, {}: {:?}", path, la, t1, lb, t2)));
+                        return Some(("target".into(), format!("{:?}: link target {}: {:?} ({} bytes), {}: {:?} ({} bytes)", path, la, String::from_utf8_lossy(t1), t1.len(), lb, String::from_utf8_lossy(t2), t2.len())));
                     }
                     None
                 }
@@ -321,7 +322,11 @@ pub fn resolve(inst: &Instance, cl: &mut Client, path: &str) -> Result<EntryR, i
                 return Err(libc::ENOTDIR);
             }
         }
-        let e = cl.lookup(&inst.srv, node, comp.as_bytes())?;
+        let e = if COLD.with(|c| c.get()) {
+            via_readdirplus(inst, cl, node, comp.as_bytes())?.ok_or(libc::ENOENT)?
+        } else {
+            cl.lookup(&inst.srv, node, comp.as_bytes())?
+        };
         if e.nodeid == 0 {
             return Err(libc::ENOENT);
         }
@@ -419,10 +424,10 @@ pub fn walk(inst: &Instance, cl: &mut Client, node: u64, attr: &AttrR, path: &st
         }
         libc::S_IFLNK => {
             let target = match cl.readlink(&inst.srv, node) {
-                Ok(t) => String::from_utf8_lossy(&t).to_string(),
+                Ok(t) => t,
                 Err(e) => {
                     problems.push(("readlink-failed".into(), format!("{:?}: errno {}", path, e)));
-                    String::new()
+                    Vec::new()
                 }
             };
             VNode::Symlink { target }
@@ -479,12 +484,18 @@ pub enum OOp {
     Chmod(String),
     SetXattr(String),
     RemoveXattr(String),
+    /// lchown: copies the object itself up, symbolic links included
+    Chown(String),
+    /// open O_RDONLY and keep the handle (no copy-up)
+    OpenKeep(String),
+    /// SETATTR(mode) carrying the kept handle
+    ChmodKept(String),
 }
 
 impl OOp {
     pub fn path(&self) -> &str {
         match self {
-            OOp::CreateExcl(p) | OOp::CreateTrunc(p) | OOp::Mkdir(p) | OOp::Mknod(p) | OOp::Symlink(p) | OOp::Unlink(p) | OOp::Rmdir(p) | OOp::Write(p) | OOp::OpenTrunc(p) | OOp::OpenRdTrunc(p) | OOp::Truncate(p) | OOp::Chmod(p) | OOp::SetXattr(p) | OOp::RemoveXattr(p) => p,
+            OOp::CreateExcl(p) | OOp::CreateTrunc(p) | OOp::Mkdir(p) | OOp::Mknod(p) | OOp::Symlink(p) | OOp::Unlink(p) | OOp::Rmdir(p) | OOp::Write(p) | OOp::OpenTrunc(p) | OOp::OpenRdTrunc(p) | OOp::Truncate(p) | OOp::Chmod(p) | OOp::SetXattr(p) | OOp::RemoveXattr(p) | OOp::Chown(p) | OOp::OpenKeep(p) | OOp::ChmodKept(p) => p,
             OOp::Link(_, p) => p,
         }
     }
@@ -505,6 +516,9 @@ impl OOp {
             OOp::Chmod(_) => "chmod",
             OOp::SetXattr(_) => "setxattr",
             OOp::RemoveXattr(_) => "removexattr",
+            OOp::Chown(_) => "chown",
+            OOp::OpenKeep(_) => "open-keep",
+            OOp::ChmodKept(_) => "chmod-kept-handle",
         }
     }
 }
@@ -582,7 +596,7 @@ pub fn model_apply(root: &mut VNode, op: &OOp) -> Option<Result<(), i32>> {
         },
         OOp::Mkdir(_) => add(root, VNode::Dir { mode: 0o755, children: BTreeMap::new(), xattrs: nx() }),
         OOp::Mknod(_) => add(root, VNode::File { content: vec![], mode: 0o600, xattrs: nx() }),
-        OOp::Symlink(_) => add(root, VNode::Symlink { target: "tgt".into() }),
+        OOp::Symlink(_) => add(root, VNode::Symlink { target: b"tgt".to_vec() }),
         OOp::Link(src, _) => match mget(root, src) {
             Ok(VNode::Dir { .. }) => Err(libc::EPERM),
             Ok(n) => {
@@ -663,6 +677,23 @@ pub fn model_apply(root: &mut VNode, op: &OOp) -> Option<Result<(), i32>> {
             Ok(_) => return None,
             Err(e) => Err(e),
         },
+        OOp::Chown(p) => match mget(root, p) {
+            Ok(_) => Ok(()),
+            Err(e) => Err(e),
+        },
+        OOp::OpenKeep(p) => match mget(root, p) {
+            Ok(VNode::File { .. }) => Ok(()),
+            Ok(_) => return None,
+            Err(e) => Err(e),
+        },
+        OOp::ChmodKept(p) => match mget_mut(root, p) {
+            Ok(VNode::File { mode, .. }) => {
+                *mode = 0o700;
+                Ok(())
+            }
+            Ok(_) => return None,
+            Err(e) => Err(e),
+        },
         OOp::RemoveXattr(p) => match mget_mut(root, p) {
             Ok(VNode::File { xattrs, .. }) | Ok(VNode::Dir { xattrs, .. }) => {
                 if xattrs.remove("user.c10").is_some() {
@@ -685,7 +716,40 @@ fn dir_parent(inst: &Instance, cl: &mut Client, pp: &str) -> Result<EntryR, i32>
     Ok(p)
 }
 
+thread_local! {
+    /// cold mode: the client learns names through READDIRPLUS (as after `ls -l`), it never sends LOOKUP
+    static COLD: std::cell::Cell<bool> = const { std::cell::Cell::new(false) };
+}
+
+fn via_readdirplus(inst: &Instance, cl: &mut Client, parent: u64, name: &[u8]) -> Result<Option<EntryR>, i32> {
+    let (fh, _) = cl.opendir(&inst.srv, parent, 0)?;
+    let mut off = 0u64;
+    let mut found = None;
+    for _ in 0..64 {
+        let v = cl.readdir(&inst.srv, parent, fh, off, 4096, true)?;
+        if v.is_empty() {
+            break;
+        }
+        for d in v {
+            off = d.off;
+            if d.name == name {
+                if let Some(raw) = &d.entry {
+                    let e = parse_entry(raw);
+                    if e.nodeid != 0 {
+                        found = Some(e);
+                    }
+                }
+            }
+        }
+    }
+    let _ = cl.release(&inst.srv, parent, fh, 0, true);
+    Ok(found)
+}
+
 fn child(inst: &Instance, cl: &mut Client, parent: &EntryR, name: &str) -> Result<Option<EntryR>, i32> {
+    if COLD.with(|c| c.get()) {
+        return via_readdirplus(inst, cl, parent.nodeid, name.as_bytes());
+    }
     match cl.lookup(&inst.srv, parent.nodeid, name.as_bytes()) {
         Ok(e) if e.nodeid != 0 => Ok(Some(e)),
         Ok(_) => Ok(None),
@@ -695,7 +759,7 @@ fn child(inst: &Instance, cl: &mut Client, parent: &EntryR, name: &str) -> Resul
 }
 
 /// The operation through the FUSE client, as a kernel would issue it (lookups first).
-pub fn real_apply(inst: &Instance, cl: &mut Client, op: &OOp) -> Result<(), i32> {
+pub fn real_apply(inst: &Instance, cl: &mut Client, op: &OOp, kept: &mut BTreeMap<String, (u64, u64)>) -> Result<(), i32> {
     let (pp, name) = split(op.path());
     let s = &inst.srv;
     match op {
@@ -813,6 +877,24 @@ pub fn real_apply(inst: &Instance, cl: &mut Client, op: &OOp) -> Result<(), i32>
                 e => Err(e),
             }
         }
+        OOp::Chown(p) => {
+            let e = resolve(inst, cl, p)?;
+            cl.setattr(s, e.nodeid, &[("valid", 2 | 4), ("uid", 12), ("gid", 13)]).map(|_| ())
+        }
+        OOp::OpenKeep(p) => {
+            let e = resolve(inst, cl, p)?;
+            let (fh, _) = cl.open(s, e.nodeid, libc::O_RDONLY as u32)?;
+            kept.insert(p.clone(), (e.nodeid, fh));
+            Ok(())
+        }
+        OOp::ChmodKept(p) => {
+            let e = resolve(inst, cl, p)?;
+            match kept.get(p) {
+                // fchmod(fd): SETATTR with FATTR_FH and the handle of the earlier open
+                Some((node, fh)) if *node == e.nodeid => cl.setattr(s, e.nodeid, &[("valid", 1 | (1 << 6)), ("mode", 0o700), ("fh", *fh)]).map(|_| ()),
+                _ => cl.setattr(s, e.nodeid, &[("valid", 1), ("mode", 0o700)]).map(|_| ()),
+            }
+        }
         OOp::RemoveXattr(p) => {
             let e = resolve(inst, cl, p)?;
             match cl.removexattr(s, e.nodeid, b"user.c10") {
@@ -861,19 +943,23 @@ fn layer_ctx(stack: &Stack, path: &str) -> String {
     format!("upper-{}+lower-{}", u, ls.join("+"))
 }
 
-pub fn run_case(stack: &Stack, seq: &[OOp], cl: &mut Client, with_restart: bool, switch: bool) -> Found {
+pub fn run_case(stack: &Stack, seq: &[OOp], cl: &mut Client, with_restart: bool, switch: bool, cold: bool) -> Found {
     let mut f = Found { c10: Vec::new(), c11: Vec::new(), steps: 0, results: Vec::new() };
     let n0 = cl.nreq;
     let mut w = OWorld::new(stack, cl);
     let mut model = stack.visible();
-    // initial view
+    let mut kept: BTreeMap<String, (u64, u64)> = BTreeMap::new();
+    let mut groups: Vec<Vec<String>> = Vec::new();
+    // initial view (cold mode: the client has not looked at anything yet when the first operation arrives)
     let mut problems = Vec::new();
-    let seen = observe(&w.live, cl, &mut problems);
-    for (c, m) in problems.drain(..) {
-        f.c10.push((format!("view/{}", c), m));
-    }
-    if let Some((c, m)) = tree_diff("", Some(&model), Some(&seen), "the overlayfs rules", "the overlay") {
-        f.c10.push((format!("view/{}", c), m));
+    if !cold {
+        let seen = observe(&w.live, cl, &mut problems);
+        for (c, m) in problems.drain(..) {
+            f.c10.push((format!("view/{}", c), m));
+        }
+        if let Some((c, m)) = tree_diff("", Some(&model), Some(&seen), "the overlayfs rules", "the overlay") {
+            f.c10.push((format!("view/{}", c), m));
+        }
     }
     if with_restart && f.c10.is_empty() {
         // a second instance over untouched directories must agree as well (it does by construction; cheap sanity)
@@ -895,7 +981,9 @@ pub fn run_case(stack: &Stack, seq: &[OOp], cl: &mut Client, with_restart: bool,
         } else {
             model_apply(&mut m2, op)
         };
-        let got = real_apply(&w.live, cl, op);
+        COLD.with(|c| c.set(cold));
+        let got = real_apply(&w.live, cl, op, &mut kept);
+        COLD.with(|c| c.set(false));
         f.results.push(format!("{:?}", got));
         let Some(want) = want else {
             // undefined in the model: only the invariants (lowers untouched, restart equivalence) are checked
@@ -917,6 +1005,32 @@ pub fn run_case(stack: &Stack, seq: &[OOp], cl: &mut Client, with_restart: bool,
         }
         if want.is_ok() && stack.upper.is_some() {
             model = m2;
+            // hard links: names created by LINK share one inode with their source
+            match op {
+                OOp::Link(src, dst) => {
+                    match groups.iter_mut().find(|g| g.contains(src)) {
+                        Some(g) => g.push(dst.clone()),
+                        None => groups.push(vec![src.clone(), dst.clone()]),
+                    }
+                }
+                OOp::Unlink(p) | OOp::Rmdir(p) => {
+                    for g in groups.iter_mut() {
+                        g.retain(|x| x != p);
+                    }
+                }
+                OOp::CreateTrunc(p) | OOp::Write(p) | OOp::OpenTrunc(p) | OOp::OpenRdTrunc(p) | OOp::Truncate(p) | OOp::Chmod(p) | OOp::SetXattr(p) | OOp::RemoveXattr(p) | OOp::ChmodKept(p) => {
+                    if let Some(g) = groups.iter().find(|g| g.contains(p)) {
+                        if let Ok(n) = mget(&model, p).map(|n| n.clone()) {
+                            for other in g.iter().filter(|x| *x != p) {
+                                if let Ok(slot) = mget_mut(&mut model, other) {
+                                    *slot = n.clone();
+                                }
+                            }
+                        }
+                    }
+                }
+                _ => {}
+            }
         }
         // the view after the step
         let mut pr = Vec::new();
@@ -954,6 +1068,7 @@ pub fn run_case(stack: &Stack, seq: &[OOp], cl: &mut Client, with_restart: bool,
             if switch {
                 // carry on with the restarted instance: later steps start from state loaded from disk
                 w.live = inst2;
+                kept.clear();
             }
         }
     }
@@ -966,7 +1081,7 @@ pub fn run_case(stack: &Stack, seq: &[OOp], cl: &mut Client, with_restart: bool,
 
 /// The 55 contents of one layer over the universe {a, d, d/a}.
 pub fn layer_contents(tag: &str, dir_mode: u32, file_mode: u32, opaque_name: &'static str) -> Vec<LNode> {
-    let mut a_opts: Vec<Option<LNode>> = vec![None, Some(LNode::file(&format!("{}-a", tag), file_mode)), Some(LNode::dir(dir_mode, None, vec![])), Some(LNode::Symlink(format!("{}-target", tag))), Some(LNode::Whiteout)];
+    let mut a_opts: Vec<Option<LNode>> = vec![None, Some(LNode::file(&format!("{}-a", tag), file_mode)), Some(LNode::dir(dir_mode, None, vec![])), Some(LNode::Symlink(format!("{}-target", tag).into_bytes())), Some(LNode::Whiteout)];
     let mut d_opts: Vec<Option<LNode>> = vec![None, Some(LNode::file(&format!("{}-d", tag), file_mode)), Some(LNode::Whiteout)];
     for opaque in [None, Some(opaque_name)] {
         for da in [None, Some(LNode::file(&format!("{}-da", tag), file_mode)), Some(LNode::Whiteout), Some(LNode::dir(dir_mode, None, vec![]))] {
@@ -1011,6 +1126,7 @@ pub fn ops_for(paths: &[&str], link_src: &[&str]) -> Vec<OOp> {
         v.push(OOp::Chmod(s.clone()));
         v.push(OOp::SetXattr(s.clone()));
         v.push(OOp::RemoveXattr(s.clone()));
+        v.push(OOp::Chown(s.clone()));
         for l in link_src {
             if l != p {
                 v.push(OOp::Link(l.to_string(), s.clone()));
@@ -1029,7 +1145,7 @@ struct ORun<'a> {
 impl<'a> ORun<'a> {
     fn case(&mut self, family: &str, stack: &Stack, seq: &[OOp]) -> bool {
         let with_restart = self.prop == "C11";
-        let f = run_case(stack, seq, &mut self.cl, with_restart, family.ends_with("-switch"));
+        let f = run_case(stack, seq, &mut self.cl, with_restart, family.ends_with("-switch"), family.ends_with("-cold"));
         self.rep.eval();
         self.rep.transitions += f.steps;
         let mine = if self.prop == "C10" { &f.c10 } else { &f.c11 };
@@ -1158,6 +1274,52 @@ pub fn run(args: &Args, prop: &'static str) -> Report {
             idx += 1;
         }
     }
+    // family pair-cold (C10): the first operation arrives before the client has looked anything up; names are learned
+    // through READDIRPLUS only (as after `ls -l`), so nothing was loaded by an earlier LOOKUP
+    if prop == "C10" {
+        let cold_ops: Vec<OOp> = small_ops.iter().filter(|o| matches!(o, OOp::Rmdir(_) | OOp::Unlink(_) | OOp::Mkdir(_) | OOp::CreateExcl(_) | OOp::Chmod(_) | OOp::Write(_) | OOp::Link(..))).cloned().collect();
+        for (ui, u) in uppers.iter().enumerate() {
+            for (li, l) in lowers.iter().enumerate() {
+                if !thorough && (ui * 55 + li) % 4 != 0 {
+                    continue;
+                }
+                let stack = Stack { upper: Some(u.clone()), lowers: vec![l.clone()] };
+                for op in &cold_ops {
+                    if run.rep.mine(idx) && !run.rep.over_budget() {
+                        run.case("pair-cold", &stack, &[op.clone()]);
+                    }
+                    idx += 1;
+                }
+            }
+        }
+    }
+    // family handles: a read-only handle opened before the object is copied up is used afterwards
+    {
+        let hl = LNode::dir(0o755, None, vec![("a", LNode::file("L-a", 0o640)), ("b", LNode::file("L-a", 0o640)), ("d", LNode::dir(0o1777, None, vec![("a", LNode::file("L-da", 0o604))]))]);
+        let hus = vec![LNode::dir(0o755, None, vec![]), LNode::dir(0o755, None, vec![("d", LNode::dir(0o755, None, vec![]))]), LNode::dir(0o755, None, vec![("a", LNode::file("U-a", 0o644))])];
+        for hu in &hus {
+            let stack = Stack { upper: Some(hu.clone()), lowers: vec![hl.clone()] };
+            for p in ["a", "d/a"] {
+                let mids: Vec<Option<OOp>> = vec![None, Some(OOp::Write(p.into())), Some(OOp::Chmod(p.into())), Some(OOp::SetXattr(p.into())), Some(OOp::Truncate(p.into())), Some(OOp::Link(p.into(), "n".into())), Some(OOp::Chown(p.into())), Some(OOp::OpenTrunc(p.into()))];
+                for mid in mids {
+                    let mut seq = vec![OOp::OpenKeep(p.into())];
+                    if let Some(m) = mid {
+                        seq.push(m);
+                    }
+                    seq.push(OOp::ChmodKept(p.into()));
+                    seq.push(OOp::Write(p.into()));
+                    if run.rep.mine(idx) && !run.rep.over_budget() {
+                        for n in 1..=seq.len() {
+                            if run.case("handles", &stack, &seq[..n]) {
+                                break;
+                            }
+                        }
+                    }
+                    idx += 1;
+                }
+            }
+        }
+    }
     // family no-upper: one or two lowers, nothing may change
     for (li, l) in lowers.iter().enumerate() {
         for (mi, m) in lowers2.iter().enumerate() {
@@ -1205,7 +1367,7 @@ pub fn run(args: &Args, prop: &'static str) -> Report {
     let deep_lower = LNode::dir(
         0o755,
         None,
-        vec![("p", LNode::dir(0o1777, None, vec![("c", LNode::dir(0o750, None, vec![("f", LNode::file("L-pcf", 0o640)), ("g", LNode::Symlink("L-tgt".into()))])), ("f", LNode::file("L-pf", 0o604))]))],
+        vec![("p", LNode::dir(0o1777, None, vec![("c", LNode::dir(0o750, None, vec![("f", LNode::file("L-pcf", 0o640)), ("g", LNode::Symlink(b"L-t\xe9gt".to_vec()))])), ("f", LNode::file("L-pf", 0o604))]))],
     );
     let deep_uppers = vec![LNode::dir(0o755, None, vec![]), LNode::dir(0o755, None, vec![("p", LNode::dir(0o755, None, vec![("c", LNode::dir(0o755, None, vec![("u", LNode::file("U-pcu", 0o644))]))]))])];
     let mut deep_ops: Vec<OOp> = Vec::new();
@@ -1220,6 +1382,8 @@ pub fn run(args: &Args, prop: &'static str) -> Report {
     deep_ops.push(OOp::Write("p/c/f".into()));
     deep_ops.push(OOp::Chmod("p/c".into()));
     deep_ops.push(OOp::Unlink("p/c/u".into()));
+    deep_ops.push(OOp::Chown("p/c/g".into()));
+    deep_ops.push(OOp::Chown("p/c".into()));
     let deep_depth = if thorough { 4 } else { 3 };
     for u in &deep_uppers {
         let stack = Stack { upper: Some(u.clone()), lowers: vec![deep_lower.clone()] };
